@@ -146,6 +146,7 @@ func (f *File) reload() {
 			return
 		}
 		f.log.Error("os stat", err)
+		return
 	}
 	if info.ModTime().Before(f.mStamp) || time.Since(info.ModTime()) < (reloadInterval/2) {
 		return // reload not necessary
